@@ -159,6 +159,9 @@ class SymbolCodePrinter(StrPrinter):  # type: ignore[misc]
         if expr.could_extract_minus_sign():
             expr = -expr
             tex = "-"
+            # the negated product can collapse to a sum, which needs brackets after the minus sign
+            if expr.is_Add:
+                return f"-({self._print(expr)})"
 
         n, d = fraction(expr, exact=True)
 
